@@ -9,4 +9,10 @@ a = open(os.path.join(V, "design.d", "AS_BUILT.md"), encoding="utf-8").read()
 b, e = "<!-- AS_BUILT:BEGIN -->", "<!-- AS_BUILT:END -->"
 i, j = d.index(b) + len(b), d.index(e)
 open(os.path.join(V, "DESIGN.md"), "w", encoding="utf-8").write(d[:i] + "\n" + a + d[j:])
+d = open(os.path.join(V, "DESIGN.md"), encoding="utf-8").read()
+s4 = open(os.path.join(V, "design.d", "SESSION4.md"), encoding="utf-8").read()
+b, e = "<!-- SESSION4:BEGIN -->", "<!-- SESSION4:END -->"
+if b in d:
+    i, j = d.index(b) + len(b), d.index(e)
+    open(os.path.join(V, "DESIGN.md"), "w", encoding="utf-8").write(d[:i] + "\n" + s4 + d[j:])
 print("DESIGN.md §11 refreshed")
